@@ -19,7 +19,11 @@ CONSTANTS Opcodes,    \* subset of {0, 4, 5}
           TtlSel,     \* set of TTL limb pairs
           TxtLens,    \* payload lengths for TXT
           TxtCounts,  \* records per TXT record set
-          BigLens     \* payload lengths of the opaque (type 65280) record that pushes names past 0x3FFF
+          BigLens,    \* payload lengths of the opaque (type 65280) record that pushes names past 0x3FFF
+          IdSel,      \* message ids (0 and 65535 are the boundary values)
+          PadSel,     \* EDNS padding block sizes (0 = none)
+          ZoneClsSel, \* class of the zone of an update (1 = IN, 3 = CH)
+          MaxSel      \* max_size of the low-level renderer (small values force rollbacks)
 VARIABLE hist
 TtlOne == {<<0, 300>>}
 TtlMany == {<<0, 300>>, <<0, 0>>, <<32767, 65535>>}
@@ -55,21 +59,24 @@ H(e) == hist' = Append(hist, e)
 Hdr == hist[1]
 Recs == SelectSeq(hist, LAMBDA e : e.op = "rr")
 NRecs == Len(Recs)
-\* well-formed message: no two record sets of one section share owner (as a DNS name) and type
-Fresh(r) == \A i \in 1..Len(hist) :
-    hist[i].op = "rr" => ~(hist[i].sec = r.sec /\ NameEqCI(hist[i].name, r.name) /\ hist[i].kind = r.kind
-                           /\ (hist[i].form = r.form \/ r.form = "plain"))
+Zc == IF Hdr.opcode = OpUpdate THEN Hdr.zcls ELSE ClsIN
+\* well-formed message: no two record sets IN THE OUTPUT of one section share owner (as a DNS name),
+\* type and class (a record set that was rolled back may be followed by another one of the same owner)
+Fresh(r) == LET rs == MkRRset(r, RfcCmp, Zc) IN
+    \A i \in 1..Len(st.xs) : ~(st.xs[i].sec = r.sec /\ NameEqCI(st.xs[i].name, rs.name) /\ st.xs[i].type = rs.type
+                                /\ st.xs[i].cls = rs.cls)
 
 GInit ==
-    \E op \in Opcodes, bits \in BitSel, rc \in RcodeSel, e \in EdnsSel, org \in OriginSel :
-      /\ (rc > 15 => e # "off")
-      /\ LET h == [op |-> "hdr", id |-> 4660, opcode |-> op, bits |-> bits, rcode |-> rc, origin |-> org,
-                   edns |-> EdnsOf(e, rc)]
-         IN hist = <<h>> /\ RInit(4660, HdrFlags(h), 65535)
+    \E op \in Opcodes, bits \in BitSel, rc \in RcodeSel, e \in EdnsSel, org \in OriginSel,
+       id \in IdSel, pad \in PadSel, zc \in ZoneClsSel, mx \in MaxSel :
+      /\ (rc > 15 => e # "off") /\ (pad > 0 => e # "off") /\ (op # OpUpdate => zc = ClsIN)
+      /\ LET h == [op |-> "hdr", id |-> id, opcode |-> op, bits |-> bits, rcode |-> rc, origin |-> org,
+                   edns |-> EdnsOf(e, rc), pad |-> pad, zcls |-> zc, max |-> mx]
+         IN hist = <<h>> /\ RInit(id, HdrFlags(h), mx)
 
 GQuestion ==
     /\ Len(hist) = 1
-    /\ \E q \in (IF Hdr.opcode = OpUpdate THEN {[name |-> UName(1), type |-> TySOA, cls |-> ClsIN]}
+    /\ \E q \in (IF Hdr.opcode = OpUpdate THEN {[name |-> UName(1), type |-> TySOA, cls |-> Hdr.zcls]}
                  ELSE {[name |-> n, type |-> TyA, cls |-> ClsIN] : n \in Owners \ (IF Hdr.origin THEN {UName(4)} ELSE {})}) :
          AddQuestion(q) /\ H([op |-> "q", name |-> q.name, type |-> q.type, cls |-> q.cls])
 
@@ -79,13 +86,14 @@ GRec ==
     /\ \E sec \in 1..3 : \E r \in RecU(sec, FormsFor(Hdr.opcode, sec)) \cup (IF Hdr.opcode = OpUpdate THEN {} ELSE BigU(sec)) :
          /\ sec >= st.section /\ Fresh(r)
          /\ (Hdr.origin => UName(4) \notin {r.name, r.n1, r.n2})   \* see notes/C03.md, O2
-         /\ AddRRset(sec, MkRRset(r, RfcCmp, ClsIN))
+         /\ (Zc # ClsIN => r.kind \notin {"A", "SRV"})          \* class-specific RDATA layouts
+         /\ AddRRset(sec, MkRRset(r, RfcCmp, Zc))
          /\ H([op |-> "rr"] @@ r)
 
 GEnd ==
     /\ hist[Len(hist)].op # "end"
     /\ (Hdr.opcode = OpUpdate => Len(hist) > 1)
-    /\ IF Hdr.edns[1] = "edns" THEN AddOpt(HdrOpt(Hdr), 0, 0, 0) ELSE UNCHANGED st
+    /\ IF Hdr.edns[1] = "edns" THEN AddOpt(HdrOpt(Hdr), Hdr.pad, IF Hdr.pad > 0 THEN PlainSize(HdrOpt(Hdr)) + 4 ELSE 0, 0) ELSE UNCHANGED st
     /\ H([op |-> "end"])
 
 GNext == GQuestion \/ GRec \/ GEnd
